@@ -10,7 +10,8 @@ from scipy.stats import norm
 from common import fx, unfx, rq, dec_list, close
 
 REQUIRED = ['counts_of_rows', 'counts_of_completion', 'width_one', 'frechet_closed_form', 'bounds_valid',
-            'bounds_sharp', 'binary_counts', 'contains_rd', 'contains_reported_rd']
+            'bounds_sharp', 'binary_counts', 'contains_rd', 'contains_reported_rd',
+            'frechet_counts_generated']
 RULE = ('binary exposure: every 2x2 table with cells 0..B (B=6 quick, 8 thorough) and both groups non-empty, each with '
         'and without extra rows missing the exposure, the outcome or both (outcomes / exposures of the incomplete rows '
         'varied), rows shuffled, two codings of (index level, reference); every completion of the unobserved potential '
